@@ -188,7 +188,18 @@ def check_vector(v):
                 if name == "col":
                     return t[:, 0 if op["c"] == 1 else -1].to_string()
                 if name == "eq":
-                    return [[bool(x) for x in row] for row in (t == letters[op["x"]]).tolist()]
+                    res_ = [[bool(x) for x in row] for row in (t == letters[op["x"]]).tolist()]
+                    # the same letter given as an element of plain (ASCII) text and as an element of an array in t's own encoding: an
+                    # operand that is already an encoded array is compared by its letter, not by its code
+                    for oname, operand in (("ascii element", lambda: bnp.as_encoded_array(letters[op["x"]] + "x")[0]),
+                                           ("own-encoding element", lambda: bnp.as_encoded_array(letters[op["x"]], t.encoding)[0])):
+                        try:
+                            alt = [[bool(x) for x in row] for row in (t == operand()).tolist()]
+                        except Exception:      # noqa: refused
+                            continue
+                        if alt != res_:
+                            return {"operand": oname, "gives": alt, "text operand gives": res_}
+                    return res_
                 if name == "streq":
                     return [bool(x) for x in bnp.str_equal(t, txt(op["s"])).tolist()]
                 if name == "streq2":
